@@ -3,6 +3,7 @@
    bonds      : bonds separated by '#', operators by '|', terms by ';', each  in,prim:re:im ("." = empty operator)
    requests   : cert <table> <bonds> | resid <table> <bonds> | fseq <sum> <sum> | swap <b2> <b3> <n2> <n3> | dims <bonds> -/
 import RenoVerif.Model.SymMpo
+import RenoVerif.Model.SymTree
 import RenoVerif.Driver.Util
 open RenoVerif RenoVerif.FS RenoVerif.SymMpo RenoVerif.Util
 
@@ -30,6 +31,27 @@ def parseOp (s : String) : Option (List (OutOp GaussRat)) :=
 def parseBond (s : String) : Option (BondOps GaussRat) := (s.splitOn "|").mapM parseOp
 def parseBonds (s : String) : Option (List (BondOps GaussRat)) := (s.splitOn "#").mapM parseBond
 
+def parseTTerm (s : String) : Option (SymTree.Term GaussRat) :=
+  match s.splitOn ":" with
+  | [ins, key, re, im] =>
+    let insL := if ins == "-" then some [] else (ins.splitOn ".").mapM (·.toNat?)
+    match insL, key.toNat?, parseRat re, parseRat im with
+    | some insL, some key, some a, some b => some ⟨insL, key, ⟨a, b⟩⟩
+    | _, _, _, _ => none
+  | _ => none
+
+def parseTNode (s : String) : Option (SymTree.Node GaussRat) :=
+  match s.splitOn "@" with
+  | [ch, ops] =>
+    let chL := if ch == "-" then some [] else (ch.splitOn ",").mapM (·.toNat?)
+    let opsL := (ops.splitOn "|").mapM fun o => if o == "." then some [] else (o.splitOn ";").mapM parseTTerm
+    match chL, opsL with
+    | some chL, some opsL => some ⟨chL, opsL⟩
+    | _, _ => none
+  | _ => none
+
+def parseTNodes (s : String) : Option (List (SymTree.Node GaussRat)) := (s.splitOn "#").mapM parseTNode
+
 def normSqMax (s : FSum Row GaussRat) : Rat :=
   s.foldl (fun m p => let n := p.2.normSq; if m < n then n else m) 0
 
@@ -49,6 +71,14 @@ def step (line : String) : String :=
   | ["swap", o2, o3, n2, n3] => match parseBond o2, parseBond o3, parseBond n2, parseBond n3 with
     | some o2, some o3, some n2, some n3 => toString (checkSwap o2 o3 n2 n3)
     | _, _, _, _ => "bad-op"
+  | ["tcert", t, n] => match parseSum t, parseTNodes n with
+    | some t, some n => toString (SymTree.checkCert t n)
+    | _, _ => "bad-op"
+  | ["tresid", t, n] => match parseSum t, parseTNodes n with
+    | some t, some n => match SymTree.residual t n with
+      | some r => (if SymTree.wellFormed n && SymTree.isTree n then "wf " else "illformed ") ++ ratStr (normSqMax r)
+      | none => "shape"
+    | _, _ => "bad-op"
   | ["dims", b] => match parseBonds b with
     | some b => " ".intercalate (b.map fun ops => toString ops.length)
     | none => "bad-op"
